@@ -178,5 +178,17 @@ pub fn corpus() -> Vec<(Dag, Vec<Vec<f32>>)> {
         let d = ctx.or(c, 2.0).unwrap();
         out.push((Dag { ctx, roots: vec![d], vs: vec![] }, vec![vec![1.0, 2.0, 3.0], vec![0.0, 0.0, 0.0], vec![-1.0, 5.0, -7.0]]));
     }
+    // register-with-immediate forms with extreme constants (subnormal divisors, the largest finite value, an
+    // infinity): algebraic shortcuts on the immediate (x / c as x * (1 / c) ...) stop being exact exactly there
+    for c in [1.0e-40f32, -7.0e-42, 1.4693679e-39, f32::MIN_POSITIVE, f32::MAX, f32::INFINITY, 3.0, 0.5] {
+        let mut ctx = Context::new();
+        let x = ctx.x(); let y = ctx.y();
+        let k = ctx.constant(c);
+        let e = ctx.mul(x, y).unwrap();
+        let roots = vec![ctx.div(x, k).unwrap(), ctx.div(k, x).unwrap(), ctx.mul(x, k).unwrap(), ctx.sub(x, k).unwrap(),
+                         ctx.div(e, k).unwrap(), ctx.modulo(x, k).unwrap(), ctx.atan2(x, k).unwrap()];
+        out.push((Dag { ctx, roots, vs: vec![] },
+                  vec![vec![0.0, 1.0, 0.0], vec![-0.0, 1.0, 0.0], vec![1.0e-30, 1.0, 0.0], vec![1.0e-42, -1.0, 0.0], vec![3.0, 0.5, 0.0], vec![-2.5e38, 1.0, 0.0]]));
+    }
     out
 }
